@@ -40,7 +40,12 @@ YO = {
     "nocolon": "0x000  00                   |   halt\n",
     "oddhex": "0x000: 000                  |   halt\n",
 }
-BAD_YO = ["bad", "empty", "plusaddr", "plusbyte", "minusaddr", "nonascii", "oddhex", "nocolon"]
+# images that cannot be read to the end: a byte sequence that is not UTF-8 on a later line (after lines that load)
+YO_BYTES = {
+    "latin1_later": b"0x000: 30f40001000000000000 |   irmovq $256, %rsp\n0x00a: 00                   |   halt # arr\xeat\n",
+    "latin1_mid": b"0x000: 10                   |   nop\n                            | # caf\xe9\n0x001: 00                   |   halt\n",
+}
+BAD_YO = ["bad", "empty", "plusaddr", "plusbyte", "minusaddr", "nonascii", "oddhex", "nocolon", "latin1_later", "latin1_mid"]
 # a line without any '|' is listing text (labels, directives) and is skipped: this loads (an image without bytes)
 ODD_YO = ["shortline"]
 
@@ -62,6 +67,8 @@ def prepare(workdir):
     os.makedirs(os.path.join(workdir, "dir.hcl"))
     for n, t in YO.items():
         open(os.path.join(workdir, n + ".yo"), "w", encoding="utf-8").write(t)
+    for n, t in YO_BYTES.items():
+        open(os.path.join(workdir, n + ".yo"), "wb").write(t)
     open(os.path.join(workdir, "image.txt"), "w").write(YO["good"])
     os.makedirs(os.path.join(workdir, "dir.yo"))
 
@@ -86,7 +93,7 @@ def classify(rc, out, err):
         kind = "badTimeout"
     elif rc != 0 and err.strip():
         if ("Could not parse" in err or "Empty input file" in err or "Division by zero" in err or "os error" in err
-                or "No such file" in err or "Is a directory" in err):
+                or "No such file" in err or "Is a directory" in err or "did not contain valid UTF-8" in err):
             kind = "runError"
         else:
             kind = "diagnostics"
